@@ -5,8 +5,7 @@
    the matching receive are one joint rendezvous step.
 
    [fx] selects the code that is modelled:
-     fx = true   the tree with fixes/C23-getblock-hash-check.patch and
-                 fixes/C23-getblock-batch-shape.patch (GetBlock also receives
+     fx = true   the tree with fixes/C23-getblock-hash-check.patch (GetBlock also receives
                  from batchDoneChan while waiting for the block, drains extra
                  blocks while waiting for BatchDone, compares slot and hash)
      fx = false  the pinned tree (no such alternatives, no comparison)
